@@ -26,4 +26,11 @@ run C18 tracklib/algo/comparison.py 's/            if ul <= min(u, l):/         
 run C19 tracklib/core/raster.py 's/        if idy.is_integer() and int(idy) > -1:/        if idy.is_integer() and int(idy) > -1 and int(idy) >= self.nrow - 1:/' "border points to the lower row"
 run C20 tracklib/util/geometry.py 's/        if dist < distmin:/        if dist <= distmin:/' "last nearest segment on ties"
 run C06 tracklib/core/utils.py 's/        if len(self._heap) < 2 \* len(self):/        if len(self._heap) < 3 * len(self):/' "heap rebuild threshold (growth divergence expected, exit 0)"
+# property-preserving changes written by independent sub-agents (benign/<name>/patch.diff, demo.py, meta.json)
+for d in /verif/benign/*/; do
+  [ -s $d/patch.diff ] || continue
+  prop=$(python3 -c "import json,sys; print(json.load(open('$d/meta.json'))['property'])")
+  out=$(cd /verif && /venv/bin/python harness/seed_eval.py $d/patch.diff --props $prop 2>&1)
+  if echo "$out" | grep -q "DETECTED\|MACHINERY\|ERROR"; then echo "$prop rc!=0 [$(basename $d)] :: ALARM"; echo "$out" | tail -5; FAIL=1; else echo "$prop rc=0 [$(basename $d)] :: $(echo "$out" | grep -o 'OK property.*' | head -1 | cut -c1-100)"; fi
+done
 exit $FAIL
